@@ -143,6 +143,7 @@ func h17Bad() string {
 // H17: composition universe, every start node x every target node.
 func H17() {
 	hcSlim = param("slim") == 1
+	hcNoCfg = true
 	sc := hcGenerate(param("n"))
 	note(sc.texts[0] + sc.texts[1] + sc.texts[2] + sc.texts[3] + sc.texts[4])
 	ms, lerrs := hLoad(sc.texts...)
